@@ -30,6 +30,7 @@ type Val struct {
 	Typ types.Type
 	Loc *Loc
 	Tup []Val
+	ArrView string // for x[:] of an array kept as one opaque value: that value (used by bytes.Equal)
 }
 
 func (v Val) isLoc() bool { return v.Loc != nil }
